@@ -46,9 +46,12 @@
 (*            exists in the target namespace with the same name (comparing *)
 (*            case insensitively), this method fails, and the CIM          *)
 (*            repository remains unchanged"; unknown namespace =>          *)
-(*            CIM_ERR_INVALID_NAMESPACE.  [FakedWBEMConnection.            *)
-(*            add_cimobjects docstring; Raises ValueError / TypeError /    *)
-(*            CIMError]                                                    *)
+(*            CIM_ERR_INVALID_NAMESPACE; an object that is not a CIM class,*)
+(*            instance or qualifier declaration (alone or in the list) =>  *)
+(*            TypeError or ValueError, nothing added.                      *)
+(*            [FakedWBEMConnection.add_cimobjects docstring; "Raises:      *)
+(*            ValueError: Invalid input CIM object in `objects` parameter. *)
+(*            TypeError: Invalid type in `objects` parameter." / CIMError] *)
 (* R7 Compile compile_mof_string adds the declared qualifier types; "If a  *)
 (*            CIM class or CIM qualifier type to be added already exists   *)
 (*            in the target namespace with the same name (comparing case   *)
@@ -183,7 +186,8 @@ EnumFails(s, e) ==
 
 (*------------------------ add_cimobjects / compile ------------------------*)
 AddObjMust(s, e) ==
-  BadNs(s, e)
+  CS(e.arg # "ok", {P_TYPEERROR, P_VALUEERROR})
+  \cup BadNs(s, e)
   \cup CS(NsOk(s, e) /\ Existing(s, e),
           CimCodes \cup {P_VALUEERROR, P_TYPEERROR})
 CompileMust(s, e) ==
